@@ -1,6 +1,9 @@
 // C09: execution is total — extreme-value generators at expression and statement level, all output formats,
-// every case under catch_unwind; thorough tier repeats the statement-level scan in child processes under
-// time zones with DST gaps. A panic anywhere is a failure; the text-format runs are also correspondence cases.
+// every case under catch_unwind. Local time zones: in BOTH tiers the composed timestamp statements (every date_trunc /
+// EXTRACT part, text cast, comparisons over ts ± iv at both ends of chrono's range; D73) run in child processes under
+// eleven zones east and west of UTC; the thorough tier also repeats the whole statement-level scan there. Operator
+// chains without brackets (finding D75) run in child processes as well (library on an 8 MiB thread; the real program).
+// A panic anywhere — or a child that dies — is a failure; the text-format runs are also correspondence cases.
 use std::fs::File;
 use std::sync::atomic::AtomicBool;
 use std::sync::Arc;
@@ -53,6 +56,144 @@ const TS_QUERIES: &[&str] = &[
     "SELECT STDDEV(iv), VARIANCE(iv), PERCENTILE(ts, 0.5), ARRAY_AGG(ts), STRING_AGG(x, ',') FROM t", "SELECT ts, COUNT(*) FROM t GROUP BY ts HAVING MAX(iv) > MIN(iv)",
     "SELECT greatest(ts, ts), least(iv, iv), abs(iv), -iv FROM t", "SELECT make_timestamp(2018, 11, 4, 0, 30, 0, 0, 0), make_timestamp(-262144, 1, 1, 0, 0, 0, 0, 0) + iv FROM t",
 ];
+// ---------------------------------------------------------------------------------------------
+// Composed timestamp queries (D73). The fixed list above never applied `date_trunc` / `EXTRACT` / `::text` / a comparison
+// to `ts ± iv`; these are generated by composition: a TIMESTAMP-valued operand (the column, the column moved by the
+// interval column or by a literal interval, a made timestamp at either end of the supported range, greatest / least of
+// two such) under every part of `date_trunc`, every part of `EXTRACT`, the text cast, comparisons, differences and the
+// aggregates that keep a timestamp — over lines whose timestamps lie in the first / last hours of the range
+// (years -262143 / 262142) and intervals of a few hours that carry the instant to (and across) the end of the range,
+// next to ordinary ones. East of UTC the LOCAL time of an instant in the last hours of the range lies outside the range
+// (west of UTC: of one in the first hours); nothing may panic there. Oracle: no panic, no abort (C09).
+// ---------------------------------------------------------------------------------------------
+
+/// the zones of the time-zone children: DST gaps at midnight, half-hour and 45-minute offsets, a half-hour DST shift,
+/// east and west of UTC up to the date line (UTC+14 / UTC-11)
+pub const TZ_ZONES: &[&str] = &["America/Sao_Paulo", "Europe/London", "Asia/Beirut", "Australia/Lord_Howe", "Asia/Tokyo", "America/St_Johns",
+    "Pacific/Kiritimati", "Pacific/Pago_Pago", "Asia/Kathmandu", "Pacific/Chatham", "America/Los_Angeles"];
+
+/// every part `date_trunc` knows, and one it does not (an error, not a panic)
+pub const TRUNC_PARTS: &[&str] = &["year", "month", "day", "hour", "minute", "second", "milliseconds", "microseconds", "week"];
+pub const EXTRACT_PARTS: &[&str] = &["EPOCH", "YEAR", "MONTH", "DAY", "HOUR", "MINUTE", "SECOND"];
+const EDGE_INTERVALS: &[&str] = &["1:2:3", "-1:2:3", "5:0:0", "-5:0:0", "13:59:59", "-13:59:59", "0:30:0", "-0:30:0", "24:0:0", "-24:0:0", "0:0:1", "11:22:48", "-12:37:12", "14:0:0", "-14:0:0", "0:0:0"];
+
+/// a line of table t whose timestamp lies within the first / last day of the supported range, or an ordinary one
+/// (DST switch days of the zones above among them); the interval is a few hours, of either sign
+pub fn edge_ts_line(rng: &mut Rng) -> String {
+    let iv = *rng.pick(EDGE_INTERVALS);
+    let us = *rng.pick(&["0", "0", "999999", "500000"]);
+    match rng.below(8) {
+        0 | 1 | 2 => format!("262142;12;31;{};{};{};{};{}", rng.pick(&[0u32, 9, 10, 12, 13, 20, 21, 22, 23, 23]), rng.pick(&[0u32, 1, 30, 59]), rng.pick(&[0u32, 59]), us, iv),
+        3 | 4 | 5 => format!("-262143;1;1;{};{};{};{};{}", rng.pick(&[0u32, 0, 1, 2, 3, 11, 12, 13, 14, 23]), rng.pick(&[0u32, 1, 30, 59]), rng.pick(&[0u32, 59]), us, iv),
+        6 => format!("{};{};{};{};{};{};{};{}", rng.pick(&["262142", "-262143", "262141", "-262142"]), rng.pick(&[1u32, 12]), rng.pick(&[1u32, 2, 30, 31]), rng.below(24), rng.below(60), rng.below(60), us, iv),
+        _ => format!("{};{};{};{}", rng.pick(&["2018;11;4", "2018;2;17", "2019;3;31", "2019;10;6", "2020;3;29", "2021;4;4", "2024;2;29", "1999;12;31", "1;1;1", "1883;11;18", "1969;12;31", "1970;1;1"]),
+                     format!("{};{};{}", rng.below(24), rng.pick(&[0u32, 15, 30, 59]), rng.pick(&[0u32, 59])), us, iv),
+    }
+}
+
+/// every combination the defect needs, independent of the PRNG: both ends × hours near the end × intervals of both signs
+pub fn edge_ts_file() -> Vec<String> {
+    let mut lines = Vec::new();
+    for (date, hours) in &[("262142;12;31", [9u32, 12, 21, 22, 23]), ("-262143;1;1", [0u32, 1, 2, 12, 14])] {
+        for h in hours {
+            for iv in &["1:2:3", "-1:2:3", "13:59:59", "-13:59:59"] {
+                lines.push(format!("{};{};0;0;0;{}", date, h, iv));
+            }
+        }
+    }
+    lines.push("2018;11;4;0;30;0;0;1:2:3".to_owned());
+    lines.push("2020;3;29;2;30;0;0;-5:0:0".to_owned());
+    lines
+}
+
+/// a TIMESTAMP-valued expression over the columns of t
+fn ts_operand(rng: &mut Rng) -> String {
+    match rng.below(12) {
+        0 => "ts".to_owned(),
+        1 | 2 | 3 => "ts + iv".to_owned(),
+        4 | 5 => "ts - iv".to_owned(),
+        6 => format!("ts {} iv {} iv", rng.pick(&["+", "-"]), rng.pick(&["+", "-"])),
+        7 => format!("ts {} '{}'::interval", rng.pick(&["+", "-"]), rng.pick(&["05:00:00", "01:02:03", "13:59:59", "00:30:00", "24:00:00"])),
+        8 => format!("make_timestamp(262142, 12, 31, {}, {}, 0, 0) {} iv", rng.pick(&[9u32, 21, 22, 23]), rng.pick(&[0u32, 59]), rng.pick(&["+", "-"])),
+        9 => format!("make_timestamp(-262143, 1, 1, {}, {}, 0, 0) {} iv", rng.pick(&[0u32, 1, 2, 14]), rng.pick(&[0u32, 59]), rng.pick(&["+", "-"])),
+        10 => format!("{}(ts, ts {} iv)", rng.pick(&["greatest", "least"]), rng.pick(&["+", "-"])),
+        _ => "iv + ts".to_owned(),
+    }
+}
+
+/// a TIMESTAMP-valued expression: an operand, possibly truncated (and moved again)
+fn ts_value(rng: &mut Rng) -> String {
+    let e = ts_operand(rng);
+    match rng.below(5) {
+        0 | 1 => e,
+        2 | 3 => format!("date_trunc('{}', {})", rng.pick(TRUNC_PARTS), e),
+        _ => format!("date_trunc('{}', {}) {} iv", rng.pick(TRUNC_PARTS), e, rng.pick(&["+", "-"])),
+    }
+}
+
+fn composed_item(rng: &mut Rng) -> String {
+    match rng.below(9) {
+        0 | 1 => format!("date_trunc('{}', {})", rng.pick(TRUNC_PARTS), ts_value(rng)),
+        2 | 3 => format!("EXTRACT({} FROM {})", rng.pick(EXTRACT_PARTS), ts_value(rng)),
+        4 => format!("({})::text", ts_value(rng)),
+        5 => format!("{} {} {}", ts_value(rng), rng.pick(&["<", "<=", "=", "!=", ">", ">="]), ts_value(rng)),
+        6 => format!("{} - {}", ts_value(rng), ts_value(rng)),
+        7 => format!("date_trunc('{}', {}) {} ({})::text", rng.pick(TRUNC_PARTS), ts_operand(rng), rng.pick(&["<", "=", ">="]), ts_value(rng)),
+        _ => ts_value(rng),
+    }
+}
+
+/// a statement over table t of TS_DEFS built from the pieces above
+pub fn composed_query(rng: &mut Rng) -> String {
+    match rng.below(8) {
+        0 | 1 | 2 | 3 => { let k = 1 + rng.below(3); format!("SELECT {} FROM t", (0..k).map(|_| composed_item(rng)).collect::<Vec<_>>().join(", ")) }
+        4 => format!("SELECT ts, iv FROM t WHERE {} {} {}", ts_value(rng), rng.pick(&["<", "<=", "=", "!=", ">", ">="]), ts_value(rng)),
+        5 => format!("SELECT MIN({}), MAX({}), COUNT(*) FROM t", ts_value(rng), ts_value(rng)),
+        6 => format!("SELECT ARRAY_AGG({}), PERCENTILE({}, 0.5) FROM t", ts_value(rng), ts_value(rng)),
+        _ => format!("SELECT {}, COUNT(*) FROM t GROUP BY ts HAVING MAX({}) >= MIN({})", "ts", ts_value(rng), ts_value(rng)),
+    }
+}
+
+/// the systematic part: every `date_trunc` part and every `EXTRACT` part over `ts + iv` and `ts - iv`, the text cast and the
+/// comparisons, over the fixed file of range-end lines
+pub fn composed_sweep(run: &mut Run) {
+    let file = join_lines(&edge_ts_file());
+    let mut queries: Vec<String> = Vec::new();
+    for op in &["+", "-"] {
+        for part in TRUNC_PARTS { queries.push(format!("SELECT date_trunc('{}', ts {} iv) FROM t", part, op)); }
+        for part in EXTRACT_PARTS { queries.push(format!("SELECT EXTRACT({} FROM ts {} iv) FROM t", part, op)); }
+        queries.push(format!("SELECT (ts {} iv)::text, ts {} iv FROM t", op, op));
+        queries.push(format!("SELECT ts FROM t WHERE ts {} iv > ts", op));
+        queries.push(format!("SELECT date_trunc('day', ts {} iv) <= ts {} iv, date_trunc('hour', ts {} iv) = ts FROM t", op, op, op));
+        queries.push(format!("SELECT MIN(date_trunc('month', ts {} iv)), MAX(ts {} iv) FROM t", op, op));
+    }
+    for part in TRUNC_PARTS { queries.push(format!("SELECT date_trunc('{}', ts) FROM t", part)); }
+    for q in &queries {
+        progress(q);
+        run_formats(run, TS_DEFS, q, &[file.clone()]);
+        run.count("tz-sweep");
+    }
+}
+
+/// the random part: composed statements over range-end and ordinary lines
+pub fn composed_scan(run: &mut Run, rng: &mut Rng, n: usize) {
+    for _ in 0..n {
+        let nl = rng.below(6) + 1;
+        let lines: Vec<String> = (0..nl).map(|_| if rng.chance(1, 6) { ts_line(rng) } else { edge_ts_line(rng) }).collect();
+        let q = if rng.chance(1, 8) { (*rng.pick(TS_QUERIES)).to_owned() } else { composed_query(rng) };
+        progress(&q);
+        run_formats(run, TS_DEFS, &q, &[join_lines(&lines)]);
+        run.count("tz-composed");
+    }
+}
+
+/// in a child process: name the statement about to run, so that a death of the child (an abort cannot be caught) still
+/// leaves the failing input in what the parent reads
+fn progress(query: &str) {
+    if IN_CHILD.load(std::sync::atomic::Ordering::Relaxed) { println!("AT {}", query.replace('\n', " ")); }
+}
+static IN_CHILD: AtomicBool = AtomicBool::new(false);
+
 const JSON_QUERIES: &[&str] = &[
     "SELECT * FROM j", "SELECT a + 1, a * a, a / 0, -a, abs(a), pow(a, 2), pow(a, 70) FROM j", "SELECT b * b, sqrt(b), b / 0.0, b::text FROM j",
     "SELECT SUM(a), AVG(a), STDDEV(a), VARIANCE(b), MIN(b), MAX(b), PERCENTILE(b, 1.0) FROM j", "SELECT t, i, t + i, t - t FROM j", "SELECT c, COUNT(DISTINCT b) FROM j GROUP BY c",
@@ -91,12 +232,14 @@ pub fn scan(run: &mut Run, rng: &mut Rng, n: usize) {
                 let nl = rng.below(6) + 1;
                 let lines: Vec<String> = (0..nl).map(|_| ts_line(rng)).collect();
                 let q = *rng.pick(TS_QUERIES);
+                progress(q);
                 run_formats(run, TS_DEFS, q, &[join_lines(&lines)]);
             }
             1 => {
                 let nl = rng.below(5) + 1;
                 let lines: Vec<String> = (0..nl).map(|_| json_line(rng)).collect();
                 let q = *rng.pick(JSON_QUERIES);
+                progress(q);
                 run_formats(run, TS_DEFS, q, &[join_lines(&lines)]);
             }
             _ => {
@@ -111,6 +254,7 @@ pub fn scan(run: &mut Run, rng: &mut Rng, n: usize) {
                 let lines = gen_input(rng, nl, np, true);
                 let mut bytes = join_lines(&lines);
                 if rng.chance(1, 10) { bytes.extend_from_slice(b"\xff\xfe;1;2;3;4;\nlater;1;2;3;4;\n"); }
+                progress(&gq.text);
                 run_formats(run, &sch.defs, &gq.text, &[bytes]);
                 let _ = std::fs::remove_file(jpath);
             }
@@ -155,31 +299,47 @@ pub fn run(p: &Params) -> Run {
     // ... and the panic scan over all formats, timestamp/interval/array/JSON tables
     let nscan = p.n(600, 20_000);
     scan(&mut run, &mut rng, nscan);
-    if p.tier_thorough {
-        // DST zones: child processes (chrono's local zone is per process)
-        for zone in &["America/Sao_Paulo", "Europe/London", "Asia/Beirut", "Australia/Lord_Howe"] {
-            let exe = std::env::current_exe().unwrap();
-            let out = std::process::Command::new(exe).env("TZ", zone).arg("tzscan").arg(p.seed.to_string()).arg("4000").output();
-            match out {
-                Ok(o) => {
-                    let text = String::from_utf8_lossy(&o.stdout).to_string();
-                    let mut n = 0;
-                    for l in text.lines() {
-                        if let Some(rest) = l.strip_prefix("FAIL ") {
-                            let mut it = rest.splitn(2, " :: ");
-                            let class = it.next().unwrap_or("panic:tz");
-                            run.fail(format!("TZ={} {}", zone, it.next().unwrap_or("")), class, "panicked under this time zone".to_owned());
-                        }
-                        if let Some(c) = l.strip_prefix("CHECKS ") { n = c.trim().parse().unwrap_or(0); }
+    // the composed timestamp statements (D73) under UTC ...
+    composed_sweep(&mut run);
+    composed_scan(&mut run, &mut rng, p.n(150, 5_000));
+    // ... and under local time zones: child processes (chrono's local zone is fixed per process). Quick tier: the
+    // systematic sweep and a short composed scan in every zone; thorough tier: also the whole statement-level scan.
+    let exe = std::env::current_exe().unwrap();
+    let (n_scan, n_composed) = (p.n(0, 4000), p.n(60, 3000));
+    for zone in TZ_ZONES {
+        let args = ["tzscan".to_owned(), p.seed.to_string(), n_scan.to_string(), n_composed.to_string()];
+        let replay = format!("TZ={} harness {}", zone, args.join(" "));
+        match std::process::Command::new(&exe).env("TZ", zone).args(&args).output() {
+            Ok(o) => {
+                let text = String::from_utf8_lossy(&o.stdout).to_string();
+                let mut n = 0;
+                let mut last_at = String::new();
+                for l in text.lines() {
+                    if let Some(rest) = l.strip_prefix("FAIL ") {
+                        let mut it = rest.splitn(2, " :: ");
+                        let class = it.next().unwrap_or("panic:tz");
+                        run.fail(format!("TZ={} {}", zone, it.next().unwrap_or("")), class, "panicked under this time zone".to_owned());
                     }
-                    run.oracle_checks += n;
-                    run.count(&format!("tz:{}", zone));
-                    if !o.status.success() { run.fail(format!("TZ={}", zone), "panic:tz-child-died", format!("child exit {:?}", o.status)); }
+                    if let Some(c) = l.strip_prefix("CHECKS ") { n = c.trim().parse().unwrap_or(0); }
+                    if let Some(q) = l.strip_prefix("AT ") { last_at = q.to_owned(); }
                 }
-                Err(e) => run.notes.push(format!("could not start TZ child: {}", e)),
+                run.oracle_checks += n;
+                run.count(&format!("tz:{}", zone));
+                if !o.status.success() {
+                    let err = String::from_utf8_lossy(&o.stderr);
+                    let tail: String = err.chars().rev().take(400).collect::<String>().chars().rev().collect();
+                    run.fail(format!("TZ={} query={} (the statement the child was running when it died; `{}`)", zone, last_at, replay), "panic:tz-child-died", format!("child exit {:?}; stderr ends {:?}", o.status, tail));
+                }
             }
+            Err(e) => run.notes.push(format!("could not start TZ child: {}", e)),
         }
     }
+    run.notes.push(format!("time zones: {} zones, each in a child process: composed sweep (every date_trunc / EXTRACT part over ts ± iv at both ends of the range) + {} composed statements + {} statements of the general scan", TZ_ZONES.len(), n_composed, n_scan));
+    // finding D75: operator chains without brackets. In-process evaluation needs the statement on this thread's stack, so
+    // they run in child processes: the library on an 8 MiB thread (parse, execute one row, drop — stage by stage) and the
+    // real program on its own main thread. The safe size must give the documented answer.
+    crate::c14::chain_stream(&mut run, true, &[crate::c14::CHAIN_SAFE, 200_000]);
+    crate::cli::chain_stream(&mut run, if p.tier_thorough { &[crate::c14::CHAIN_SAFE, 300, 400, 500, 600, 700, 800, 1000, 2000, 5000, 20_000, 200_000] } else { &[crate::c14::CHAIN_SAFE, 600, 2000, 200_000] });
     run.notes.push("almost-literal text with a multi-byte character at every byte offset 0..30 in TIMESTAMP / INTERVAL / TEXT fields and JSON strings".to_owned());
     // extraction over generated definitions (every pattern kind incl. split field 0 = the whole line, every column type
     // and modifier, JSON paths) and lines made for them: a panic is a failure, the rows are correspondence cases
@@ -189,10 +349,13 @@ pub fn run(p: &Params) -> Run {
     run
 }
 
-/// child-process entry: statement-level scan under the inherited TZ
-pub fn tzscan(seed: u64, n: usize) {
+/// child-process entry: the composed sweep, the composed scan and the statement-level scan under the inherited TZ
+pub fn tzscan(seed: u64, n: usize, n_composed: usize) {
+    IN_CHILD.store(true, std::sync::atomic::Ordering::Relaxed);
     let mut run = Run::new("C09");
     let mut rng = Rng::new(seed ^ 0x0909);
+    composed_sweep(&mut run);
+    composed_scan(&mut run, &mut rng, n_composed);
     scan(&mut run, &mut rng, n);
     for f in &run.failures {
         println!("FAIL {} :: {}", f.class, f.case.replace('\n', "\\n"));
